@@ -47,7 +47,7 @@ impl NodeDrive {
                 // The keys file is created before the values file: a process killed during the
                 // very first snapshot of a database leaves only the keys file, nothing of that
                 // database was completely stored yet
-                let db_name = db_name_from_file_name(&full_name.replace(".keys", ""));
+                let db_name = db_name_from_file_name(&without_keys_suffix(&full_name));
                 let (_, values_file_name) =
                     get_key_value_files_name_from_file_name(file_name_from_db_name(&db_name));
                 if !Path::new(&values_file_name).exists() {
@@ -394,7 +394,7 @@ fn get_dir_name() -> String {
 }
 
 pub fn create_db_from_file_name(file_name: &String, dbs: &Arc<Databases>) -> (Database, String) {
-    let db_name = db_name_from_file_name(&file_name.replace(".keys", ""));
+    let db_name = db_name_from_file_name(&without_keys_suffix(file_name));
     let full_name = file_name_from_db_name(&db_name);
     let meta = load_db_metadata_from_disk_or_empty(db_name.to_string(), dbs);
     let (keys_file_name, values_file_name) = get_key_value_files_name_from_file_name(full_name);
@@ -468,8 +468,20 @@ pub fn create_db_from_file_name(file_name: &String, dbs: &Arc<Databases>) -> (Da
     )
 }
 
+// Only the suffix is taken away: a database may be called app.keys or x-nun.data, with every
+// occurrence replaced such a database was looked for under another name and never loaded again
+fn without_keys_suffix(file_name: &String) -> String {
+    file_name
+        .strip_suffix(".keys")
+        .unwrap_or(file_name)
+        .to_string()
+}
+
 pub fn db_name_from_file_name(full_name: &String) -> String {
-    let partial_name = full_name.replace(BASE_FILE_NAME, "");
+    let partial_name = full_name
+        .strip_suffix(BASE_FILE_NAME)
+        .unwrap_or(full_name)
+        .to_string();
     let splited_name: Vec<&str> = partial_name.split("/").collect();
     let db_name = splited_name.last().unwrap();
     return db_name.to_string();
